@@ -157,7 +157,8 @@ structure MapCfg where
   rangeBody : List ROp
   /-- the bodies of Load/LoadAndDelete/LoadOrStore/Swap are `call; [guard;] assert; return` and
   nothing else, `Range` is `m.m.Range(closure)`, Store/Delete/CompareAndSwap/CompareAndDelete
-  forward unchanged, and the field `m` is a `sync.Map` -/
+  forward unchanged, the field `m` is a `sync.Map`, and these nine are all the methods `Map` has (nothing else reaches
+  the inner map) -/
   forwards : Bool
   deriving DecidableEq, Repr
 
@@ -185,7 +186,9 @@ def MapCfg.gen : MapCfg :=
       && bodyShape Gen.Watch.loadOrStoreBody && bodyShape Gen.Watch.swapBody
       && Gen.Watch.rangeCalls && Gen.Watch.storeForwards && Gen.Watch.deleteForwards
       && Gen.Watch.casForwards && Gen.Watch.cadForwards
-      && Gen.Watch.mapFields == [("m", "sync.Map")] && Gen.Watch.mapImportsSync }
+      && Gen.Watch.mapFields == [("m", "sync.Map")] && Gen.Watch.mapImportsSync
+      && Gen.Watch.mapMethods == ["CompareAndDelete", "CompareAndSwap", "Delete", "Load", "LoadAndDelete", "LoadOrStore",
+        "Range", "Store", "Swap"] }
 
 section Typed
 variable {K UK V UV : Type} [DecidableEq UK] [DecidableEq UV]
@@ -279,7 +282,9 @@ structure WCfg where
   valueShape : Bool
   /-- the field `p` on which `Set` / `Value` call `Swap`, `Load`, `CompareAndSwap(nil, _)` is declared
   `atomic.Pointer[watchableInner[T]]` with `atomic` = sync/atomic (so each of those calls is ONE
-  atomic step, which is what a label of `wstep` is), and a cell is `{t T; c chan struct{}}` -/
+  atomic step, which is what a label of `wstep` is), a cell is `{t T; c chan struct{}}`, and `Set` / `Value` are the
+  only methods of `Watchable` (so the labels of `wstep` are all the code that can touch `p`: a `Reset` storing nil
+  would make `Value`'s reload dereference nil) -/
   ptrAtomic : Bool
   deriving DecidableEq, Repr
 
@@ -302,14 +307,16 @@ def WCfg.gen : WCfg :=
       [.load, .ifInnerNil, .mkChan, .mkEmpty, .ifCas, .declZero, .retZeroC, .endBlock, .reload, .endBlock, .retInner]
     ptrAtomic := Gen.Watch.watchableFields == [("p", "atomic.Pointer[watchableInner[T]]")]
       && Gen.Watch.watchableInnerFields == [("t", "T"), ("c", "chan struct{}")]
-      && Gen.Watch.watchableImportsAtomic }
+      && Gen.Watch.watchableImportsAtomic
+      && Gen.Watch.watchableMethods == ["Set", "Value"] }
 
 /-- what the model reads off `Future` -/
 structure FCfg where
   /-- `Fill` stores the value before closing the channel -/
   fillStoresFirst : Bool
   /-- `Fill` is store+close in either order; `NewFuture` is `&Future[T]{c: make(chan struct{})}` (an
-  unbuffered, open channel) and the fields are `c chan struct{}`, `x T` -/
+  unbuffered, open channel), the fields are `c chan struct{}`, `x T`, and `Fill` / `Wait` / `WaitContext` are the only
+  methods of `Future` (nothing else stores `x` or closes `c`) -/
   fillShape : Bool
   /-- `Wait` receives from the channel, then reads the value -/
   waitShape : Bool
@@ -324,6 +331,7 @@ def FCfg.gen : FCfg :=
     fillShape := (Gen.Watch.fillOps == [.storeX, .closeC] || Gen.Watch.fillOps == [.closeC, .storeX])
       && Gen.Watch.futureChanArgs == 1 && Gen.Watch.newFutureBody
       && Gen.Watch.futureFields == [("c", "chan struct{}"), ("x", "T")]
+      && Gen.Watch.futureMethods == ["Fill", "Wait", "WaitContext"]
     waitShape := Gen.Watch.futureWaitOps == [.recvC, .retX]
     waitCtxShape := Gen.Watch.waitContextOps == [.sel, .retXNil]
       && sameArms Gen.Watch.waitContextArms [.recv "ctx.Done()", .recv "f.c"]
